@@ -331,6 +331,19 @@ def main():
         if not isinstance(later, list) or (o.get("first") or {}).get("err") != "error" or canon(later) != canon(want):
             ck.violation("a storage outage at the first request of one client (bolt file not yet creatable) changes what the other clients get afterwards (%s state): first=%s later=%s" % (
                 st, canon((o or {}).get("first") if isinstance(o, dict) else o)[:160], canon(later)[:300]), {"case": w, "impl": o}, tag="storage-outage")
+    # one location whose stored documents cannot be loaded (a record that is not JSON): its requests fail; the other locations --
+    # one cached already, one loaded afterwards -- find what they stored and keep what they store (bolt file read back at the end)
+    for st in ("indexed", "linear"):
+        w = {"kind": "c11.bad_record", "state": st}
+        o = run_cases(drv, [w])[0]
+        ck.count(w)
+        want = [{"ok": "{\"k\":1}"}, {"ok": "{\"k\":2}"}, {"ok": "h1"}, {"ok": "{\"k\":3}"}, {"ok": "h2"}, {"ok": "{\"k\":1}"}]
+        wstored = {"G1": ["g1", "h1"], "G2": ["g2", "h2"]}
+        if not isinstance(o, dict) or (o.get("bad") or {}).get("err") != "error" or canon(o.get("others")) != canon(want) or \
+                canon({k: sorted(v) for k, v in (o.get("stored") or {}).items()}) != canon(wstored):
+            ck.violation("a location whose stored documents cannot be loaded changes what the other locations get or keep (%s state): bad=%s others=%s stored=%s" % (
+                st, canon((o or {}).get("bad") if isinstance(o, dict) else o)[:160], canon((o or {}).get("others") if isinstance(o, dict) else None)[:300],
+                canon((o or {}).get("stored") if isinstance(o, dict) else None)[:160]), {"case": w, "impl": o}, tag="bad-record")
     # locations whose rules have the same script text but name a library that is different code in each location: what a location's
     # scripts return is what they return when the process serves that location only (each "alone" run is a process of its own)
     for st in ("indexed", "linear"):
